@@ -1,0 +1,101 @@
+//go:build verif
+
+// Contracts for package message, checked by /verif/engine (govc).
+// This file contains comments only; it never changes the compiled package.
+
+package message
+
+/*@
+
+// ================================================================ ghost model of a segment log file
+// A file (identified by an abstract content id f) is a sequence of recN(f)
+// complete valid records; record k starts at recPos(f,k); recPos(f,recN(f)) is
+// the end of the valid prefix. recIdx is the inverse of recPos, so loop
+// invariants need no ghost counters.
+
+spec recN(f int) int
+spec recPos(f int, k int) int64
+spec recIdx(f int, pos int64) int
+spec recOffset(f int, k int) int64
+spec recMicro(f int, k int) int64
+spec recKey(f int, k int) bseq
+spec recValue(f int, k int) bseq
+spec tailClean(f int) bool          // the file ends exactly at recPos(f, recN(f))
+spec recTs(f int, k int) int64      // derived index timestamp of record k: max(recMicro, previous recTs)
+spec recHash(f int, k int) uint64   // key hash of record k
+
+pred wfFile(f int) :=
+    recN(f) >= 0
+    && (forall k :: 0 <= k && k <= recN(f) ==> recIdx(f, recPos(f, k)) == k && recPos(f, k) >= 0)
+    && (forall j, k :: 0 <= j && j < k && k <= recN(f) ==> recPos(f, j) < recPos(f, k))
+
+// a log file as klevdb writes it: offsets non-negative and strictly increasing
+pred wfLog(f int) :=
+    wfFile(f)
+    && (forall j, k :: 0 <= j && j < k && k < recN(f) ==> recOffset(f, j) < recOffset(f, k))
+    && (forall k :: 0 <= k && k < recN(f) ==> recOffset(f, k) >= 0)
+    && (forall j, k :: 0 <= j && j <= k && k < recN(f) ==> recTs(f, j) <= recTs(f, k))
+    && recN(f) <= 1152921504606846976
+
+// message m is record k of file f (content equality: bytes, not slice identity)
+pred isRec(m Message, f int, k int) :=
+    m.Offset == recOffset(f, k) && micro(m.Time) == recMicro(f, k)
+    && bseq(m.Key) == recKey(f, k) && bseq(m.Value) == recValue(f, k)
+
+// position p is the start of record number recIdx(f,p)
+pred atRec(f int, p int64) :=
+    0 <= recIdx(f, p) && recIdx(f, p) < recN(f) && recPos(f, recIdx(f, p)) == p
+
+ghost field Reader.gfile int
+
+// ================================================================ reading
+
+// the format-specific record reader behind (*Reader).reader; readV1/readV2 refine it
+field Reader.reader
+    assigns *msg
+    ensures[record] atRec(self.gfile, position) ==>
+                err == nil && ret0 == recPos(self.gfile, recIdx(self.gfile, position) + 1)
+                && isRec(*msg, self.gfile, recIdx(self.gfile, position))
+    ensures[end]    position == recPos(self.gfile, recN(self.gfile)) ==> err != nil
+    ensures[eof]    position == recPos(self.gfile, recN(self.gfile)) && tailClean(self.gfile) ==> is(err, io.EOF)
+    ensures[damaged] position == recPos(self.gfile, recN(self.gfile)) && !tailClean(self.gfile) ==> is(err, ErrCorrupted) && !is(err, io.EOF)
+
+func (*Reader).Consume
+    requires wfFile(r.gfile)
+    requires[count] 0 <= maxCount && maxCount <= 1048576
+    requires atRec(r.gfile, position) && atRec(r.gfile, maxPosition) && recIdx(r.gfile, position) <= recIdx(r.gfile, maxPosition)
+    ensures[ok]    err == nil
+    ensures[count] len(ret0) == min(maxCount, int64(recIdx(r.gfile, maxPosition) - recIdx(r.gfile, position) + 1))
+    ensures[run]   forall j :: 0 <= j && j < len(ret0) ==> isRec(ret0[j], r.gfile, recIdx(r.gfile, position) + j)
+    loop 1
+      invariant[i]     0 <= i && i <= maxCount && len(msgs) == maxCount
+      invariant[chain] i <= recIdx(r.gfile, maxPosition) - recIdx(r.gfile, old(position)) + 1
+      invariant[pos]   position == recPos(r.gfile, recIdx(r.gfile, old(position)) + i)
+      invariant[run]   forall j :: 0 <= j && j < i ==> isRec(msgs[j], r.gfile, recIdx(r.gfile, old(position)) + j)
+      decreases maxCount - i
+
+func (*Reader).Get
+    requires wfFile(r.gfile)
+    ensures[record] atRec(r.gfile, position) ==> err == nil && isRec(msg, r.gfile, recIdx(r.gfile, position))
+
+func (*Reader).Read
+    requires wfFile(r.gfile)
+    ensures[record] atRec(r.gfile, position) ==>
+                err == nil && nextPosition == recPos(r.gfile, recIdx(r.gfile, position) + 1)
+                && isRec(msg, r.gfile, recIdx(r.gfile, position))
+    ensures[end]    position == recPos(r.gfile, recN(r.gfile)) ==> err != nil
+    ensures[eof]    position == recPos(r.gfile, recN(r.gfile)) && tailClean(r.gfile) ==> is(err, io.EOF)
+    ensures[damaged] position == recPos(r.gfile, recN(r.gfile)) && !tailClean(r.gfile) ==> is(err, ErrCorrupted) && !is(err, io.EOF)
+
+func MinOffset
+    ensures[empty] len(offsets) == 0 ==> ret0 == OffsetInvalid
+    ensures[member] len(offsets) > 0 ==> has(offsets, ret0)
+    ensures[least]  forall o int64 :: has(offsets, o) ==> ret0 <= o
+    loop 1
+      invariant[sub]    forall o int64 :: has(visited, o) ==> has(offsets, o)
+      invariant[first]  first <==> (forall o int64 :: !has(visited, o))
+      invariant[init]   first ==> min == OffsetInvalid
+      invariant[member] !first ==> has(visited, min)
+      invariant[least]  forall o int64 :: has(visited, o) ==> min <= o
+
+@*/
